@@ -63,12 +63,26 @@ def r1_vocabularies(ctx):
     rt_lists = []
     for n in ast.walk(sp):
         if isinstance(n, ast.Compare) and isinstance(
-                n.ops[0], (ast.NotIn, ast.In)) and isinstance(
-                    n.left, ast.Name):
+                n.ops[0], (ast.NotIn, ast.In)):
             lst = literal(n.comparators[0])
-            if isinstance(lst, list) and "absolute" in lst:
-                rt_lists.append((n, lst))
+            if isinstance(lst, (list, tuple)) and "absolute" in lst:
+                rt_lists.append((n, list(lst)))
     ctx.floor("range-type vocabulary in setup_profile", len(rt_lists), 1)
+    # the value that is tested is the value that is stored
+    rt_stores = [st for st in walk_no_nested(sp, False)
+                 if isinstance(st, ast.Assign) and isinstance(
+                     st.targets[0], ast.Subscript)
+                 and const_str(st.targets[0].slice) == "range_type"]
+    ctx.floor("range_type store in setup_profile", len(rt_stores), 1)
+    for n, lst in rt_lists:
+        for st in rt_stores:
+            ctx.check(norm(st.value) == norm(n.left), st,
+                      f"stored range type `{norm(st.value)}` is the tested "
+                      f"`{norm(n.left)}`",
+                      f"setup_profile tests `{norm(n.left)}` against the "
+                      f"accepted range types but stores `{norm(st.value)}`:"
+                      f" an answer that only matches after the conversion "
+                      f"is stored as typed and rejected by the fitter")
     for n, lst in rt_lists:
         extra = [x for x in lst if x not in accepted_by_fit]
         ctx.check(not extra, n, f"setup accepts range types {lst}",
